@@ -210,6 +210,25 @@ func c20Run(r *runCtx, id string, f []string) {
 				time.Sleep(2 * time.Millisecond)
 				rt.VerifFanoutBarrier()
 			}
+			if !stuck && loaded && !rt.VerifSwapPending() {
+				// the line has been taken by the loader; before anything else happens it must also have
+				// reached the program's VM (otherwise a load issued next could legitimately overtake it)
+				deadline := time.Now().Add(10 * time.Second)
+				for time.Now().Before(deadline) {
+					e.mu.Lock()
+					seenIt := false
+					for _, x := range e.log {
+						if strings.HasPrefix(x, kv[1]+"@") {
+							seenIt = true
+						}
+					}
+					e.mu.Unlock()
+					if seenIt || rt.VerifSwapPending() {
+						break
+					}
+					time.Sleep(100 * time.Microsecond)
+				}
+			}
 			// when the line is to be held, wait until the VM has actually entered it
 			e.mu.Lock()
 			ent := e.entered[kv[1]]
